@@ -93,6 +93,8 @@ def run_bounded(contract, fn, relpath, contracts, B):
     E.SetK.universe = B
     try:
         bex = E.Executor(contract, fn, relpath, contracts=contracts or {})
+        for mname, mqual in (getattr(contract, "inline", None) or {}).items():
+            bex.inline_nodes[mname] = index().find(relpath, mqual)
         bex.bound = B
         obs = bex.run()
     except E.VCError:
@@ -124,7 +126,9 @@ def verify(run, relpath, contract, fn_qual=None, contracts=None, fingerprint=Non
     stale_reason = None
     if fingerprint is not None:
         cur = loop_headers(fn)
-        if cur != fingerprint:
+        # stale = different loop *structure* (number / kind / nesting order of loops).  A changed loop header with the same
+        # structure is an ordinary code change: its obligations are decided normally (invariants are semantic).
+        if sorted(cur) != sorted(fingerprint):
             stale_reason = f"loop structure differs from the contract's fingerprint: {cur} vs {fingerprint}"
     # default argument values of callees are read from the current source (a changed default changes the call's meaning)
     for cname, cc in (contracts or {}).items():
@@ -142,6 +146,8 @@ def verify(run, relpath, contract, fn_qual=None, contracts=None, fingerprint=Non
             pass
     exe = E.Executor(contract, fn, relpath, contracts=contracts or {}, timeout_ms=timeout_ms)
     try:
+        for mname, mqual in (getattr(contract, "inline", None) or {}).items():
+            exe.inline_nodes[mname] = index().find(relpath, mqual)
         obs = exe.run()
     except E.VCError as ex:
         run.oblig(f"subset:{label}", label, "A(pyvc)", "undecided",
